@@ -701,8 +701,14 @@ class Model:
             logger.info("Replacing constant values")
 
             # N.B. Any parameter expression elimination must be done first.
-            symbols = self._symbols(self.constants)
-            values = [v.value for v in self.constants]
+            # Constants whose value is still an expression (of other constants or
+            # parameters) are kept, like parameters in `replace_parameter_values`.
+            unresolved_constants = [
+                c for c in self.constants if not ca.MX(c.value).is_constant()
+            ]
+            resolved_constants = [c for c in self.constants if ca.MX(c.value).is_constant()]
+            symbols = self._symbols(resolved_constants)
+            values = [v.value for v in resolved_constants]
             if len(self.equations) > 0:
                 self.equations = ca.substitute(self.equations, symbols, values)
             if len(self.initial_equations) > 0:
@@ -713,14 +719,14 @@ class Model:
                 )
 
             # Also remove the aliases of any of the constants from the alias relation
-            for constant in self.constants:
+            for constant in resolved_constants:
                 if constant.aliases:
                     # Note that we will only get here if simplify is called multiple times on the
                     # same model, as alias detection is done _after_ replacing constant values.
                     # Otherwise a variable will not have any aliases yet.
                     self.alias_relation.remove(constant.symbol.name())
 
-            self.constants = []
+            self.constants = unresolved_constants
 
             # Replace constant values in metadata
             self._substitute_metadata(symbols, values)
